@@ -20,24 +20,16 @@ structure WellFormed (d : Intf) : Prop where
 
 /-- **name_roundtrip** (first half): every well-formed description renders, and parsing the
 rendering gives back exactly that description — all eight components. -/
-theorem name_roundtrip (d : Intf) (h : WellFormed d) : ∃ s, render d = .ok s ∧ Intf.parse s = .ok d := by
-  obtain ⟨pfx, sep, slot, card, port, sub, chan, cls⟩ := d
-  obtain ⟨hp, hshape, hc⟩ := h
-  simp only at hp hshape hc
-  rcases hshape with ⟨rfl, rfl, rfl⟩ | ⟨hs, rfl⟩
-  · refine ⟨pfx ++ (toDec port ++ tl sub chan cls), by simp [render, number, tl], ?_⟩
-    exact roundtrip_short pfx port sub chan cls hp hc
-  · cases slot with
-    | none => simp at hs
-    | some s =>
-      cases card with
-      | none =>
-        refine ⟨pfx ++ ((toDec s ++ '/' :: toDec port) ++ tl sub chan cls), by simp [render, number, tl, sepStr], ?_⟩
-        exact roundtrip_long pfx _ s none port sub chan cls rfl hp hc
-      | some c =>
-        refine ⟨pfx ++ ((toDec s ++ '/' :: (toDec c ++ '/' :: toDec port)) ++ tl sub chan cls),
-          by simp [render, number, tl, sepStr], ?_⟩
-        exact roundtrip_long pfx _ s (some c) port sub chan cls rfl hp hc
+theorem name_roundtrip (d : Intf) (h : WellFormed d) : ∃ s, render d = .ok s ∧ Intf.parse s = .ok d :=
+  canon_roundtrip d ⟨fun c hc => by simp [isPfxCh, h.pfx c hc], strip_word d.pfx h.pfx, h.shape, h.cls⟩
+
+/-- **name_roundtrip** (second half): for EVERY accepted text `s` — blank after the prefix, interior
+blanks in the prefix (`Port channel1`), leading zeros, trailing junk, `1//2` … — the constructed
+object renders, and parsing the rendering gives exactly the same object (all eight components):
+`parse (render (parse s)) = parse s`. -/
+theorem name_reparse (s : Str) (d : Intf) (h : Intf.parse s = .ok d) :
+    ∃ r, render d = .ok r ∧ Intf.parse r = .ok d :=
+  canon_roundtrip d (parse_canon s d h)
 
 /-- consequently rendering is a fixed point: the re-parsed object renders to the same text and
 is `==` to the original. -/
@@ -48,14 +40,10 @@ theorem name_roundtrip_stable (d : Intf) (h : WellFormed d) :
   refine ⟨s, h1, by simp [h2, Except.bind, h1], ?_⟩
   simp [h2, Except.map, eq]
 
-/- **name_roundtrip** (second half), NOT PROVED here:
-     ∀ s d, parse s = .ok d → ∃ r, render d = .ok r ∧ parse r = .ok d
-   for every accepted `s`, including a blank after the prefix, leading zeros, trailing junk.
-   Missing: that every output of the scanners is a fixed point of render-then-scan when the
-   prefix keeps interior whitespace (`Port channel1`) or the class word follows junk
-   (`Eth1 foo bar`); the statement is exercised on every accepted name of the correspondence
-   run (the `name` request re-parses the rendering on both sides and the oracle compares the
-   two component lists). -/
+-- non-vacuity of `name_reparse`: accepted texts that are not canonical
+example : ((Intf.parse " Port channel 01//2 foo bar ".toList).toOption.map
+            (fun d => (d.pfx, d.slot, d.card, d.port, d.cls)))
+          = some ("Port channel".toList, some 1, none, 2, some "bar".toList) := by decide
 
 -- non-vacuity: the docstring example of the class, three numbers, subinterface, channel, class word
 example : WellFormed { pfx := "Serial".toList, sep := some '/', slot := some 4, card := some 1, port := 2,
@@ -119,7 +107,9 @@ theorem mem_expandBounds (p : Option Nat × Option Nat) (n : Nat) :
     | none => simp [expandBounds, InBounds]
     | some lo => simp [expandBounds, InBounds, mem_upto]
 
-/-- **range_expands**: an accepted, non-empty range text has a begin object `b`, an iterated
+/-- **range_expands**: an accepted, non-empty range text — since fix f223496 of `/repo` a part is
+cut only at a hyphen between two digits (`splitIv`), so texts with a hyphenated prefix such as
+`Port-channel1-3` or `Bundle-Ether10-12,15` are accepted and inside this theorem — has a begin object `b`, an iterated
 attribute `a` (the last numeric component of `b`) and bounds `ps`, one per comma-separated part.
 When every part carries the iterated component (`ns` are the denoted integers), the members are
 exactly `b` with that component varied over `ns`: each once, ascending in the `<` of the
@@ -178,5 +168,13 @@ example : ((parseRange "Eth1/1-3,5,2,9-7".toList).toOption.map (fun d => d.map (
           = some [(some 1, 1), (some 1, 2), (some 1, 3), (some 1, 5)] := by decide
 example : ((plan "Eth1/1-3,5,2,9-7".toList).toOption.map (fun r => (r.2.1, r.2.2)))
           = some (Attr.port, [(some 1, some 3), (some 5, none), (some 2, none), (some 9, some 7)]) := by decide
+
+-- non-vacuity on a hyphenated prefix: the hyphen of `Port-channel` is not an interval hyphen
+example : splitIv "Port-channel1-3".toList = ["Port-channel1".toList, "3".toList] := by decide
+example : ((parseRange "Port-channel1-3,7".toList).toOption.map (fun d => d.map (fun i => (i.pfx, i.port))))
+          = some [("Port-channel".toList, 1), ("Port-channel".toList, 2), ("Port-channel".toList, 3),
+                  ("Port-channel".toList, 7)] := by decide
+example : ((plan "Port-channel1-3,7".toList).toOption.map (fun r => (r.2.1, r.2.2)))
+          = some (Attr.port, [(some 1, some 3), (some 7, none)]) := by decide
 
 end Ccp.C15
